@@ -20,7 +20,7 @@ ALLOWED_AXIOMS = ()
 CONFIGS_ALL = ["cfg-default", "cfg-pointer", "cfg-index-nocache-st", "cfg-pointer-nocache-mt",
                "cfg-index-nocache-mt", "cfg-index-cache-st", "cfg-pointer-nocache-st", "cfg-pointer-cache-st"]
 CONFIGS_QUICK = CONFIGS_ALL[:4]
-PROPS = ["C01", "C02", "C03", "C05"]
+PROPS = ["C01", "C02", "C03", "C04", "C05", "C09", "C10", "C12"]
 DRV_ARGS = ["--props", ",".join(PROPS), "--digest-order"]
 
 
@@ -171,7 +171,11 @@ def gen_groups(ctx):
         add(kind, ddgen.case_pairs("x", kind, rng.choice(ddgen.PERMS3), op,
                                    sample=None if thorough else 16000, rng=rng), threads=(1, 2, 8))
         for _ in range(120 if thorough else 16):
-            add(kind, ddgen.case_history("x", kind, rng, nv=rng.randrange(3, 8), length=60), threads=(1, 2, 8))
+            # ZBDD: the set-family interface (subset0/1, change, union, ...) as well -- its single-threaded and
+            # multi-threaded function types are separate wrappers
+            from checks import C09
+            extra = (C09.zb_extra, C09.zb_extra, C09.zb_extra) if kind == "zbdd" else ()
+            add(kind, ddgen.case_history("x", kind, rng, nv=rng.randrange(3, 8), length=60, extra_ops=extra), threads=(1, 2, 8))
     for _ in range(60 if thorough else 10):
         add("mtbdd", ddgen.mt_case_history("x", rng, length=60), threads=(1, 2, 8))
     add("mtbdd", ddgen.mt_case_pairs_1var("x", rng.choice(ddgen.MT_OPS)))
